@@ -103,6 +103,8 @@ type boundSite struct {
 	bStr string
 
 	caseTags map[ast.Expr]ast.Expr
+	// estCalls: calls of grower helpers that leave v < len(B) behind (symbolic bounds)
+	estCalls []*ast.CallExpr
 }
 
 func (s *boundSite) sameB(e ast.Expr) bool {
@@ -134,6 +136,28 @@ func (s *boundSite) boundExpr(e ast.Expr) (bnd, bool) {
 	}
 	e = stripConv(s.info, e)
 	switch x := e.(type) {
+	case *ast.Ident:
+		// a local with a single definition that is such a bound (have := len(B))
+		if o, ok := s.info.Uses[x].(*types.Var); ok && !o.IsField() && s.B != nil {
+			var def ast.Expr
+			nDefs := 0
+			ast.Inspect(s.f.Body(), func(y ast.Node) bool {
+				if as, ok := y.(*ast.AssignStmt); ok && len(as.Lhs) == len(as.Rhs) {
+					for i, l := range as.Lhs {
+						if identObj(s.info, l) == types.Object(o) {
+							nDefs++
+							def = as.Rhs[i]
+						}
+					}
+				}
+				return true
+			})
+			if nDefs == 1 && def != nil {
+				if _, isId := stripConv(s.info, def).(*ast.Ident); !isId {
+					return s.boundExpr(def)
+				}
+			}
+		}
 	case *ast.CallExpr:
 		if isBuiltin(s.info, x, "len") && len(x.Args) == 1 && s.sameB(x.Args[0]) {
 			return bnd{sym: true, mult: 1}, true
@@ -553,8 +577,156 @@ func (s *boundSite) upperHolds(target ast.Node, v *types.Var, K bnd) (holds bool
 		b, ok := s.upperFrom(c, v, trueEdge)
 		return ok && bndLE(b, K)
 	}
-	res = s.search(target, starts, edgeEst, func(nd ast.Node) bool { return estNodes[nd] }, estRanges)
+	isEstNode := func(nd ast.Node) bool {
+		if estNodes[nd] {
+			return true
+		}
+		if K.sym {
+			for _, c := range s.estCalls {
+				if containsNode(nd, c) {
+					return true
+				}
+			}
+		}
+		return false
+	}
+	res = s.search(target, starts, edgeEst, isEstNode, estRanges)
 	return !res.Found, true, res
+}
+
+// ensuresOnExit: on every way out of the function (return or falling off the end) v < K has been established since the
+// entry — used to summarise grower helpers. v is a parameter.
+func (s *boundSite) ensuresOnExit(v *types.Var, K bnd) bool {
+	defs, ranges, ok := s.defsOf(v)
+	if !ok || len(ranges) != 0 || len(defs) != 0 {
+		return false // the parameter is reassigned: keep it simple
+	}
+	estNode := func(nd ast.Node) bool {
+		as, ok := nd.(*ast.AssignStmt)
+		if !ok {
+			return false
+		}
+		for i, l := range as.Lhs {
+			if s.sameB(l) && i < len(as.Rhs) && len(as.Lhs) == len(as.Rhs) {
+				if c, ok := ast.Unparen(as.Rhs[i]).(*ast.CallExpr); ok && isBuiltin(s.info, c, "append") && len(c.Args) >= 1 && s.sameB(c.Args[0]) && s.growsToCoverVia(c, v) {
+					return true
+				}
+			}
+		}
+		return false
+	}
+	edgeEst := func(c ast.Expr, trueEdge bool) bool {
+		b, ok := s.upperFrom(c, v, trueEdge)
+		return ok && bndLE(b, K)
+	}
+	type st struct {
+		b *cfg.Block
+		i int
+	}
+	seen := map[st]bool{}
+	work := []st{{s.fl.G.Blocks[0], 0}}
+	for len(work) > 0 {
+		x := work[0]
+		work = work[1:]
+		if seen[x] {
+			continue
+		}
+		seen[x] = true
+		if x.i < len(x.b.Nodes) {
+			nd := x.b.Nodes[x.i]
+			if estNode(nd) {
+				continue
+			}
+			if isReturn(nd) {
+				return false
+			}
+			work = append(work, st{x.b, x.i + 1})
+			continue
+		}
+		if len(x.b.Succs) == 0 {
+			if x.b.Kind == cfg.KindSelectAfterCase {
+				continue
+			}
+			return false
+		}
+		for si, nb := range x.b.Succs {
+			if len(x.b.Succs) == 2 && len(x.b.Nodes) > 0 {
+				if cond, ok := x.b.Nodes[len(x.b.Nodes)-1].(ast.Expr); ok {
+					pruned := false
+					if si == 0 {
+						for _, c := range conjuncts(cond) {
+							if edgeEst(c, true) {
+								pruned = true
+							}
+						}
+					} else {
+						for _, c := range disjuncts(cond) {
+							if edgeEst(c, false) {
+								pruned = true
+							}
+						}
+					}
+					if pruned {
+						continue
+					}
+				}
+			}
+			work = append(work, st{nb, 0})
+		}
+	}
+	return true
+}
+
+// growsToCoverVia: like growsToCover, and also accepts len(B) held in a local defined just before (have := len(B))
+func (s *boundSite) growsToCoverVia(c *ast.CallExpr, v *types.Var) bool {
+	if s.growsToCover(c, v) {
+		return true
+	}
+	if len(c.Args) != 2 || !c.Ellipsis.IsValid() {
+		return false
+	}
+	mk, ok := ast.Unparen(c.Args[1]).(*ast.CallExpr)
+	if !ok || !isBuiltin(s.info, mk, "make") || len(mk.Args) != 2 {
+		return false
+	}
+	sub, ok := stripConv(s.info, mk.Args[1]).(*ast.BinaryExpr)
+	if !ok || sub.Op != token.SUB {
+		return false
+	}
+	// the subtrahend: a local all of whose definitions are len(B) (possibly converted)
+	lo := identObj(s.info, stripConv(s.info, sub.Y))
+	if lo == nil {
+		return false
+	}
+	nDefs, all := 0, true
+	ast.Inspect(s.f.Body(), func(x ast.Node) bool {
+		if as, ok := x.(*ast.AssignStmt); ok && len(as.Lhs) == len(as.Rhs) {
+			for i, l := range as.Lhs {
+				if identObj(s.info, l) == lo {
+					nDefs++
+					if b, ok := s.boundExpr(as.Rhs[i]); !ok || !b.sym || b.mult != 1 {
+						all = false
+					}
+				}
+			}
+		}
+		return true
+	})
+	if nDefs == 0 || !all {
+		return false
+	}
+	add, ok := stripConv(s.info, sub.X).(*ast.BinaryExpr)
+	if !ok || add.Op != token.ADD {
+		return false
+	}
+	for _, pair := range [][2]ast.Expr{{add.X, add.Y}, {add.Y, add.X}} {
+		if f, ok := indexForm(s.info, pair[0]); ok && f.v == v && f.div == 1 {
+			if one, ok := constInt(s.info, pair[1]); ok && one >= 1 {
+				return true
+			}
+		}
+	}
+	return false
 }
 
 // growsToCover: append(B, make(T, v+1-len(B))...) — afterwards len(B) = v+1
